@@ -224,7 +224,34 @@ def _chunk_frames_part(repo, it, S, q, desc, cat, exons, sn, start, cs, ce, to_c
     return n, out
 
 
+def _var_case(repo, it, S, spec):
+    """a variant interval lying inside the chunk: same chromosome-level dictionary, chunk coordinates = chromosome coordinates - chunk start"""
+    _, (vs, ve), alt, cs, ce = spec[:5]
+    out = []
+    pc = chrom_parent(it, GENOME, alphabet="NT_EXTENDED")
+    pk = chunk_parent(it, GENOME, cs, ce, alphabet="NT_EXTENDED")
+    q = "gene.variants:VariantInterval"
+    desc = f"VariantInterval({vs},{ve},{alt!r}) chunk=[{cs},{ce})"
+    mkv = lambda p_: it.apply(ClassTok("VariantInterval"), [vs, ve, alt, "x"], {"parent_or_seq_chunk_parent": p_}, None, 0)  # noqa: E731
+    try:
+        whole, part = mkv(pc), mkv(pk)
+    except Raised as ex:
+        return 1, [("variant construct", f"{desc}: construction raises {ex.exc_name}", f"{q}.__init__")]
+    f = repo.fn(f"{q}.to_dict")
+    k1, d1 = run(it, f, [], {}, whole)
+    k2, d2 = run(it, f, [], {}, part)
+    if k1 != k2 or strip_opaque(d1) != strip_opaque(d2):
+        out.append(("variant to_dict", f"{desc}: to_dict() differs between twins: {strip_opaque(d1)} vs {strip_opaque(d2)}", f.qual))
+    k3, d3 = run(it, f, [], {"chromosome_relative_coordinates": False}, part)
+    if k3 != "ok" or (d3.get("start"), d3.get("end")) != (vs - cs, ve - cs):
+        out.append(("variant to_dict in chunk coordinates", f"{desc}: to_dict(chromosome_relative_coordinates=False) -> {k3}:"
+                    f"{(d3.get('start'), d3.get('end')) if k3 == 'ok' else d3}; the variant lies at [{vs - cs},{ve - cs}) on the chunk", f.qual))
+    return 3, out
+
+
 def _tx_case(repo, it, S, spec):
+    if spec[0] == "var":
+        return _var_case(repo, it, S, spec)
     kind, exons, sn, cs, ce = spec[:5]
     cstrand = spec[5] if len(spec) > 5 else "PLUS"
     out = []
@@ -381,6 +408,29 @@ def _tx_case(repo, it, S, spec):
         wantb = sorted((ce - min(e, ce), ce - max(s, cs)) for s, e in exons if max(s, cs) < min(e, ce))
     if rel != inside or sorted(blocks_of(loc)) != wantb:
         out.append(("chunk location", f"{desc}: chunk_relative_location {blocks_of(loc)} = chromosome bases {rel}; the part inside the chunk is {inside} (blocks {wantb})", f"{cls}.__init__"))
+    # the dictionary in chunk coordinates lists the chunk-relative blocks (and, for a coding transcript, the chunk-relative CDS blocks)
+    if "chromosome_relative_coordinates" in f.pos_params:
+        n += 1
+        kd, dd = run(it, f, [], {"chromosome_relative_coordinates": False}, part)
+        cds_in = not kind.startswith("ctx") or any(s_ <= to_chrom(p_) < e_ for p_ in range(0, ce - cs) for s_, e_ in cds)
+        if kd != "ok":
+            # (a coding transcript whose CDS has no base in the chunk has no CDS blocks to list in chunk coordinates: a refusal is
+            # not decided here)
+            if cds_in or dd in ("AttributeError", "IndexError", "KeyError", "TypeError", "RecursionError"):
+                out.append(("to_dict in chunk coordinates", f"{desc}: to_dict(chromosome_relative_coordinates=False) raises {dd}", f.qual))
+        else:
+            sk, ek = ("exon_starts", "exon_ends") if "exon_starts" in dd else ("interval_starts", "interval_ends")
+            gotb = sorted(zip(list(dd[sk]), list(dd[ek])))
+            if gotb != sorted(blocks_of(loc)):
+                out.append(("to_dict in chunk coordinates", f"{desc}: to_dict(chromosome_relative_coordinates=False) lists blocks {gotb}; the "
+                            f"chunk-relative location is {sorted(blocks_of(loc))}", f.qual))
+            if kind.startswith("ctx") and part.fields.get("cds") is not None:
+                cin = sorted(to_chrom(p_) for p_ in range(0, ce - cs) if any(s_ <= to_chrom(p_) < e_ for s_, e_ in cds))
+                gotc = sorted(to_chrom(p_) for a_, b_ in zip(list(dd.get("cds_starts") or []), list(dd.get("cds_ends") or [])) for p_ in range(a_, b_))
+                if gotc != cin:
+                    out.append(("to_dict in chunk coordinates", f"{desc}: to_dict(chromosome_relative_coordinates=False) lists CDS blocks "
+                                f"{list(zip(list(dd.get('cds_starts') or []), list(dd.get('cds_ends') or [])))} = chromosome bases {gotc}; the CDS bases "
+                                f"inside the chunk are {cin}", f.qual))
     n += 1
     fs = repo.fn("gene.interval:AbstractFeatureInterval.get_spliced_sequence")
     k, v = run(it, fs, [], {}, part)
@@ -462,6 +512,9 @@ def rk_intervals(ctx):
                     specs.append((kind, lay, sn, cs, ce))
                     if ctx.thorough or j % 4 == 1:
                         specs.append((kind, lay, sn, cs, ce, "MINUS"))
+    for (vs, ve), alt in (((10, 12), "T"), ((10, 11), "GGG"), ((14, 15), "AC"), ((9, 13), "TTTT")):
+        for cs, ce in ((3, 30), (vs, 25), (2, ve), (vs, max(ve, vs + 1))):
+            specs.append(("var", (vs, ve), alt, cs, ce))
     ctx.r.floor("C07.RT", "transcript / feature twin cases", len(specs), 300)
     results = pmap(_runner(ctx.repo, _tx_case), specs)
     _report(ctx, "C07.RT", results, [
@@ -553,9 +606,29 @@ def _gene_twin_case(repo, it, S, spec):
         if (k1, v1) != (k2, v2):
             out.append(("cds_size of the chunk twin", f"{desc}: transcript {a.fields['transcript_id']} cds_size {k2}:{v2} on the chunk, {k1}:{v1} on the "
                         f"chromosome (documented: does not shrink)", fcs.qual))
+    # coordinate accessors of the gene itself are chromosome-level answers
+    n = 1
+    for acc in ("blocks", "num_blocks", "chromosome_location", "chromosome_span"):
+        if not repo.has_fn(f"gene.interval:AbstractInterval.{acc}"):
+            continue
+        fa = repo.fn(f"gene.interval:AbstractInterval.{acc}")
+        n += 1
+
+        def show_(kv):
+            k_, v_ = kv
+            if k_ != "ok":
+                return kv
+            if isinstance(v_, Obj):
+                return (k_, "EmptyLocation" if is_empty_obj(v_) else (blocks_of(v_), strand_of(v_).name))
+            if isinstance(v_, (list, tuple)):
+                return (k_, [blocks_of(x_)[0] if isinstance(x_, Obj) else x_ for x_ in v_])
+            return kv
+        a_, b_ = show_(run(it, fa, [], {}, gw)), show_(run(it, fa, [], {}, gp))
+        if a_ != b_:
+            out.append((f"{acc} of the chunk twin", f"{desc}: gene.{acc} is {b_[0]}:{b_[1]} on the chunk-built gene, {a_[0]}:{a_[1]} on the "
+                        f"chromosome-built twin", fa.qual))
     # the merged transcript / CDS of the chunk-built gene is itself a chunk-relative view: same chromosome blocks as the twin's, a
     # chunk-relative location that is the part inside the chunk, and the chromosome's bases for it
-    n = 1
     for acc in ("get_merged_transcript", "get_merged_cds"):
         fm = repo.fn(f"gene.gene:GeneInterval.{acc}")
         n += 1
